@@ -391,6 +391,25 @@ func raceScenarios() []raceScenario {
 			refcodec.Encode(&refcodec.Packet{Type: refcodec.SUBSCRIBE, ID: 4, Topics: [][]byte{[]byte("b")}, QoSs: []byte{0}})...))
 		vsched.Quiesce()
 	}, false})
+	// (viii-b) the same with a DISCONNECT packet instead of the cut: the old connection's
+	// processor takes the will back while the successor's handshake looks at the stored CONNECT
+	out = append(out, raceScenario{"DISCONNECT || successor resumes the session", func() {
+		t := newTD()
+		x1, err := t.w.Dial("X1")
+		if err != nil {
+			return
+		}
+		x1.Send(ConnectPacket(ConnectOpts{ClientID: "x", Clean: false, KeepAlive: 600, Will: &Will{"w/x", "first", 1, false}}))
+		t.w.Settle()
+		x2, err := t.w.Dial("X2")
+		if err != nil || vsched.Failed() {
+			return
+		}
+		vsched.Mark()
+		x1.Conn.Write(refcodec.Encode(&refcodec.Packet{Type: refcodec.DISCONNECT}))
+		x2.Conn.Write(refcodec.Encode(ConnectPacket(ConnectOpts{ClientID: "x", Clean: false, KeepAlive: 600, Will: &Will{"w/x", "second", 0, false}})))
+		vsched.Quiesce()
+	}, false})
 	// (ix) Server.Close || a client that is just connecting
 	out = append(out, raceScenario{"Server.Close || connecting client", func() {
 		t := newTD()
@@ -576,6 +595,9 @@ func C18(c *core.Ctx) {
 				return explore.Verdict{Violation: "data race between " + siteKey(sites[0]) + " and " + siteKey(sites[1]), Outcome: "race"}
 			}
 			return explore.Verdict{Outcome: "clean"}
+		}
+		if only := os.Getenv("VERIF_ONLY"); only != "" && !strings.Contains(sc.name, only) {
+			continue // debugging aid, as in RunSched
 		}
 		dev := dev
 		if sc.deep && dev < 2 {
